@@ -505,7 +505,9 @@ CASE = {case}
 KIND = dict(BufferNumpy=BufferNumpy, BufferByteArray=BufferByteArray)[CASE["kind"]]
 cap, chunks, a, gs, op = CASE["cap"], CASE["chunks"], CASE["alignment"], CASE["grow_step"], CASE["op"]
 sys.setrecursionlimit(900)  # the recursion budget the ranking obligation is stated for
-b = KIND(capacity=cap, default_alignment=a, grow_step=gs)
+# the pre-state is built with alignment 1 (packed carving; free() of whole carved pieces), the alignment under
+# test is set afterwards: a defect that only shows for alignments > 1 must not disturb the construction
+b = KIND(capacity=cap, default_alignment=1, grow_step=gs)
 # reach the free list through the public API: carve the buffer with packed allocations, free the chunks
 live = []
 pos = 0
@@ -519,6 +521,7 @@ if cap > pos:
     o = b.allocate(cap - pos, align=False); assert o == pos; live.append((pos, cap - pos))
 for o, n in tofree:
     b.free(o, n)
+b.default_alignment = a
 got = [(c.start, c.end) for c in b.chunks]
 want = [(s, e) for s, e in chunks]
 if [c for c in got if c[0] != c[1]] != [c for c in want if c[0] != c[1]]:
